@@ -316,6 +316,7 @@ async fn run(plan: SPlan) -> Obs {
                 alpn: plan.alpn.iter().map(|a| a.as_bytes().to_vec()).collect(),
                 seg: plan.seg.to_cut(),
                 max_fragment: None,
+                pace: None,
             };
             let (tls, _conn) = match patht::connect_tls(
                 LISTEN.parse().unwrap(),
